@@ -328,7 +328,8 @@ Definition judge_op (s : sst) (a : nat) (o : op) (r : out) (pre post : obs) : ve
         if negb (o_mhp pre =? NO_MAXIMUM_HASHPOWER) && changed then ok (inval s) else blame (inval s) C10_limit
       else if is_exn r ELoadFactorTooLow then blame (inval s) C10_limit
       else
-        let big_enough := n <=? N.shiftl 1 (o_hp post) * spb_ in
+        (* n + slots-per-bucket wraps in the size_t arithmetic of reserve_calc: the request is then for a tiny table *)
+        let big_enough := (18446744073709551616 <=? n + spb_) || (n <=? N.shiftl 1 (o_hp post) * spb_) in
         let res_ok := match o with OReserve _ => out_eqb r [RBool changed] | _ => out_eqb r [RNone] end in
         if res_ok && big_enough then ok (inval s) else blame (inval s) C10_limit
     | OClear | LClear =>
@@ -355,17 +356,20 @@ Definition judge_op (s : sst) (a : nat) (o : op) (r : out) (pre post : obs) : ve
         let m' := if exp_ins then sset k v m else m in
         if Bool.eqb ins exp_ins then ok (inval (put_m s a t m')) else blame (inval s) C09_iter
       | _ =>
-        if is_exn r EMaxHashpower then (if maxhp_allowed pre post None then ok (inval s) else blame (inval s) C10_limit)
-        else if is_exn r ELoadFactorTooLow then (if lf_allowed pre && lf_below pre post then ok (inval s) else blame (inval s) C10_limit)
+        let absent := match sfind k m with Some _ => false | None => true end in
+        if is_exn r EMaxHashpower then (if absent && maxhp_allowed pre post None then ok (inval s) else blame (inval s) C10_limit)
+        else if is_exn r ELoadFactorTooLow then (if absent && lf_allowed pre && lf_below pre post then ok (inval s) else blame (inval s) C10_limit)
         else blame (inval s) C09_iter
       end
     | LIdx k =>
       if grew_below_minimum pre post then blame (lose s a t) C10_limit else
       match sfind k m with
       | Some v => if out_eqb r [RInt v] then ok (inval s) else
-                  if is_exn r EMaxHashpower || is_exn r ELoadFactorTooLow then ok (inval s) else blame (inval s) C09_iter
+                  if is_exn r EMaxHashpower || is_exn r ELoadFactorTooLow then blame (inval s) C10_limit else blame (inval s) C09_iter
       | None => if out_eqb r [RInt 0] then ok (inval (put_m s a t (sset k 0%Z m))) else
-                if is_exn r EMaxHashpower || is_exn r ELoadFactorTooLow then ok (inval s) else blame (inval s) C09_iter
+                if is_exn r EMaxHashpower then (if maxhp_allowed pre post None then ok (inval s) else blame (inval s) C10_limit)
+                else if is_exn r ELoadFactorTooLow then (if lf_allowed pre && lf_below pre post then ok (inval s) else blame (inval s) C10_limit)
+                else blame (inval s) C09_iter
       end
     | LEraseKey k =>
       match sfind k m with
@@ -418,7 +422,13 @@ Definition judge_op (s : sst) (a : nat) (o : op) (r : out) (pre post : obs) : ve
           if pos_eqb (b1, s1) q && pos_eqb (b2, s2) nxt then ok s else blame s C09_iter
         | None => if pos_eqb (b1, s1) (endp post) && pos_eqb (b2, s2) (endp post) then ok s else blame s C09_iter
         end
-      | [RPos _ _; RPos _ _], None => ok s
+      | [RPos b1 s1; RPos b2 s2], None =>
+        (* without a remembered order: an absent key gives (end, end), a present key a non-end first position *)
+        let e1 := pos_eqb (b1, s1) (endp post) in
+        match sfind k m with
+        | Some _ => if negb e1 then ok s else blame s C09_iter
+        | None => if e1 && pos_eqb (b2, s2) (endp post) then ok s else blame s C09_iter
+        end
       | _, _ => blame s C09_iter
       end
     | ItBegin ri =>
@@ -508,13 +518,16 @@ Definition judge_op (s : sst) (a : nat) (o : op) (r : out) (pre post : obs) : ve
           if trav_matches od m' && positions_sorted od && in_range post od then ok s1 else blame s1 C09_iter
         else
         let s1 := {| s_tabs := s_tabs s; s_its := s_its s; s_order := Some od; s_imgs := s_imgs s |} in
-        if trav_matches od m && positions_sorted od && in_range post od then ok s1 else blame s1 C09_iter
+        let same_as_before := match s_order s with
+                              | Some od0 => out_eqb r (flat_map (fun x => match x with (b, sl, k, v) => [RPos b sl; RKV k v] end) od0)
+                              | None => true end in
+        if trav_matches od m && positions_sorted od && in_range post od && same_as_before then ok s1 else blame s1 C09_iter
       | None => blame s C09_iter
       end
     | LRTraverse =>
       match parse_trav r with
       | Some od =>
-        if trav_matches od m && positions_sorted (rev od) then
+        if trav_matches od m && positions_sorted (rev od) && in_range post od then
           match s_order s with
           | Some od0 => if out_eqb r (flat_map (fun x => match x with (b, sl, k, v) => [RPos b sl; RKV k v] end) (rev od0))
                         then ok s else blame s C09_iter
